@@ -126,6 +126,22 @@ def ev(e, env):
         if HOOK[0]:
             HOOK[0]("post")            # just after the trace was exited
         return r
+    if t == "thread":
+        # evaluate the sub-expression on a fresh worker thread (closing over this thread's traced values)
+        import threading
+        box = {}
+
+        def work():
+            try:
+                box["v"] = ev(e[1], env)
+            except BaseException as ex:      # noqa: B036 - re-raised in the calling thread
+                box["ex"] = ex
+        th = threading.Thread(target=work)
+        th.start()
+        th.join()
+        if "ex" in box:
+            raise box["ex"]
+        return box["v"]
     if t == "fail":
         raise UserFail()
     if t == "try":
@@ -187,6 +203,19 @@ def gen_fault_pattern(rng, opts):
     if rng.random() < 0.5:
         body = ["app2", "mul", body, gen(rng, 2, 1, dict(opts, fail=False), 1)]
     return [rng.choice(ops), body, ["const", rng.choice([1, 2, 3])]]
+
+
+def wrap_threads(e, rng, p):
+    """wrap a random subset of the differential operators of e in a worker thread"""
+    if not isinstance(e, list) or not e or not isinstance(e[0], str):
+        return e
+    if e[0] == "app1" or e[0] == "app2":
+        r = [e[0], e[1]] + [wrap_threads(x, rng, p) for x in e[2:]]
+    else:
+        r = [e[0]] + [wrap_threads(x, rng, p) if isinstance(x, list) else x for x in e[1:]]
+    if e[0] in ("grad", "deriv") and rng.random() < p:
+        return ["thread", r]
+    return r
 
 
 def ddepth_of(e):
@@ -300,6 +329,8 @@ def main():
             e = gen(rng, rng.randint(3, cfg.get("depth", 6)), 0, opts)
         if ddepth_of(e) < cfg.get("min_ddepth", 1) or size_of(e) > cfg.get("max_size", 40):
             continue
+        if opts.get("thread"):
+            e = wrap_threads(e, rng, opts["thread"])
         progs.append(e)
     for e in progs:
         if cfg.get("reset_top", True):
